@@ -93,7 +93,9 @@ fn pathref() -> BoxedStrategy<PathRef> {
 }
 
 fn file_blocks() -> BoxedStrategy<Vec<(u16, Mode, u8)>> {
-    let len = prop_oneof![4 => 1u16..400, 2 => prop::sample::select(vec![1u16, 111, 112, 113, 127, 128, 129, 240, 255, 256]), 1 => 1u16..16000];
+    // one block in sixteen is longer than the 16 000 bytes a block of a dat file holds (the block header's length fields
+    // are 32 bits wide and nothing in the patch format stops a file block from being longer)
+    let len = prop_oneof![8 => 1u16..400, 4 => prop::sample::select(vec![1u16, 111, 112, 113, 127, 128, 129, 240, 255, 256]), 2 => 1u16..16000, 1 => prop::sample::select(vec![15_999u16, 16_000, 16_001, 20_000, 31_999, 32_000, 32_001, 40_000, 65_535])];
     vec((len, mode(), 0u8..5), 0..=5).boxed()
 }
 
@@ -360,6 +362,9 @@ impl Interp {
                 self.classes.push(format!("chunk:F/AddFile{}", if offset == 0 { "@0" } else { "@offset" }));
                 for b in blocks {
                     self.classes.push(format!("file-block:{:?}", b.1));
+                    if b.0 > 16_000 {
+                        self.classes.push(format!("file-block>16000:{:?}", b.1));
+                    }
                 }
                 zp::file_op(b'A', offset as u64, data.len() as u64, 0, &path, &enc)
             }
